@@ -152,7 +152,7 @@ def run_exact(case):
                                      ArrayDelayQueue, py_simulate_model)
     import bioscrape.random as brandom
     C = Counter()
-    viol = []
+    viol = util.ViolList()
     sp = case["spec"]
     M = specmod.build_model(sp, "ctor")
     species = M.get_species_list()
@@ -251,7 +251,7 @@ def run_window(case):
     from bioscrape.simulator import ModelCSimInterface, DelaySSASimulator, ArrayDelayQueue, py_simulate_model
     import bioscrape.random as brandom
     C = Counter()
-    viol = []
+    viol = util.ViolList()
     sp = case["spec"]
     M = specmod.build_model(sp, "ctor")
     idx = M.get_species2index()
